@@ -515,10 +515,16 @@ where
     let p1 = make_plan(&sc.plan, sc.nkeys, &mut rng);
     let p2 = make_plan(sc.opt("plan2").unwrap_or(&sc.plan), sc.nkeys, &mut rng);
     env::with(|e| e.plans = vec![p1, p2]);
+    let chaos_h = sc.opt_u("chaos", 0) > 0;
+    let chaos_e = sc.opt_u("chaoseq", 0) > 0;
+    if chaos_h || chaos_e {
+        env::setup_chaos(seed ^ 0xC4A05, vec![0, 0, 5, 15, 16, 31, 63, 65535], 3, chaos_h, chaos_e);
+    }
+    let mode = if chaos_h || chaos_e { "chaos" } else if sc.opt_u("fault", 0) > 0 { "fault" } else { "lawful" };
     let w = hashbrown::verif::GROUP_WIDTH;
     let (es, _) = hashbrown::verif::table_layout::<(K, ())>();
     let ea = std::mem::align_of::<(K, ())>();
-    tr.reset("set", &sc.name(), w, es, ea, std::mem::needs_drop::<K>(), K::TRACKED, nt, if sc.opt_u("fault", 0) > 0 { "fault" } else { "lawful" }, seed);
+    tr.reset("set", &sc.name(), w, es, ea, std::mem::needs_drop::<K>(), K::TRACKED, nt, mode, seed);
     let mut drv: SetDrv<K> = SetDrv::new(nt, w);
     for t in 1..=nt {
         let mut ev = Event::new("new", t);
@@ -546,10 +552,16 @@ fn run_table<E: ElemT>(sc: &Scen, seed: u64, tr: &mut Tracer) -> i32 {
     let p1 = make_plan(&sc.plan, sc.nkeys + 1, &mut rng);
     let p2 = make_plan(sc.opt("plan2").unwrap_or(&sc.plan), sc.nkeys + 1, &mut rng);
     env::with(|e| e.plans = vec![p1, p2]);
+    let chaos_h = sc.opt_u("chaos", 0) > 0;
+    let chaos_e = sc.opt_u("chaoseq", 0) > 0;
+    if chaos_h || chaos_e {
+        env::setup_chaos(seed ^ 0xC4A05, vec![0, 0, 5, 15, 16, 31, 63, 65535], 3, chaos_h, chaos_e);
+    }
+    let mode = if chaos_h || chaos_e { "chaos" } else if sc.opt_u("fault", 0) > 0 { "fault" } else { "lawful" };
     let w = hashbrown::verif::GROUP_WIDTH;
     let (es, _) = hashbrown::verif::table_layout::<E>();
     let ea = std::mem::align_of::<E>();
-    tr.reset("table", &sc.name(), w, es, ea, std::mem::needs_drop::<E>(), E::TRACKED, nt, if sc.opt_u("fault", 0) > 0 { "fault" } else { "lawful" }, seed);
+    tr.reset("table", &sc.name(), w, es, ea, std::mem::needs_drop::<E>(), E::TRACKED, nt, mode, seed);
     let mut drv: TableDrv<E> = TableDrv::new(nt, w);
     for t in 1..=nt {
         drv.exec(Event::new("new", t), tr);
